@@ -85,6 +85,9 @@ func needsWitness(k Kind) bool {
 type Step struct {
 	K   Kind
 	Sub Kind `json:",omitempty"` // the invalid part of a two-message answer
+	// DelayMs: the answer is sent that much later (it then arrives after
+	// faster answers to concurrent calls for the same block were handled).
+	DelayMs int `json:",omitempty"`
 }
 
 func (s Step) String() string {
